@@ -14,17 +14,52 @@ func init() {
 	noRevoke := without(defectKinds, "revoke")
 	gens["C01"] = worldGen("C01", 2000, 40000, genOpts{maxDepth: 6, sessions: true, kinds: noRevoke})
 	// C02: restricting caveats at every level, all three derivation rules, re-delegated attestations
-	gens["C02"] = worldGen("C02", 2000, 40000, genOpts{maxDepth: 5, sessions: true, sessionPct: 30, caveats: true, caveatPct: 60,
-		kinds: []string{"none", "none", "permute", "decoys", "resource", "ability", "dup", "nbf-ok"}})
+	c02 := worldGen("C02", 2000, 40000, genOpts{maxDepth: 5, sessions: true, sessionPct: 30, caveats: true, caveatPct: 60,
+		kinds: []string{"none", "none", "permute", "decoys", "resource", "ability", "dup", "nbf-ok", "twincap", "nearmiss"}})
+	// a stratum of its own for re-delegated attestations (the `proof` caveat of the service's grant binds
+	// what the worker may attest)
+	c02att := worldGen("C02", 240, 5000, genOpts{minDepth: 1, maxDepth: 4, sessions: true, sessionPct: 100, attVariant: 4, caveats: true, caveatPct: 30,
+		kinds: []string{"none", "none", "permute", "decoys"}})
+	gens["C02"] = func(cfg Config, emit Emit) error {
+		if err := c02(cfg, emit); err != nil {
+			return err
+		}
+		return c02att(cfg, emit)
+	}
 	// C04: a non-key issuer somewhere in the chain, every attestation variant, key resolver variants
-	gens["C04"] = worldGen("C04", 2000, 40000, genOpts{minDepth: 1, maxDepth: 5, sessions: true, sessionPct: 100,
+	c04 := worldGen("C04", 2000, 40000, genOpts{minDepth: 1, maxDepth: 5, sessions: true, sessionPct: 100,
 		kinds: []string{"none", "none", "none", "wrongkey", "tamper", "expired", "tooearly", "aud", "decoys", "permute", "policy", "algcode", "dup"}})
+	gens["C04"] = func(cfg Config, emit Emit) error {
+		if err := c04(cfg, emit); err != nil {
+			return err
+		}
+		// the same session validated before and after the attestation's window boundary passes
+		genSeq(cfg, emit, "C04", 18, 180, 100)
+		return nil
+	}
 	// C05: revocation of any delegation of the chain (and of decoys)
-	gens["C05"] = worldGen("C05", 2000, 40000, genOpts{maxDepth: 6, sessions: true, sessionPct: 20, caveats: true,
-		kinds: []string{"revoke", "revoke", "revoke", "none", "decoys", "permute", "policy"}})
+	c05 := worldGen("C05", 2000, 40000, genOpts{maxDepth: 6, sessions: true, sessionPct: 20, caveats: true,
+		kinds: []string{"revoke", "revoke", "revoke", "none", "decoys", "permute", "policy", "deadend-revoke", "deadend-revoke"}})
+	gens["C05"] = func(cfg Config, emit Emit) error {
+		if err := c05(cfg, emit); err != nil {
+			return err
+		}
+		// revocation as a server applies it: the same server has seen the invocation before, under
+		// another revocation state (history phases), and must consult the checker again
+		n := 300
+		if cfg.Thorough() {
+			n = 6000
+		}
+		genWorlds(cfg, n, genOpts{maxDepth: 5, sessions: true, sessionPct: 20, kinds: []string{"revoke", "revoke", "none"}}, func(w *AWorld, class string) {
+			w.Services = []ASvc{{Can: w.Desc.Can, Result: "ok"}}
+			w.Invs = []int{w.Inv}
+			emit("serve", []string{"C05", mustJSON(w)}, "served/"+class, true)
+		})
+		return nil
+	}
 	// C06: valid chains surrounded by decoys, permutations, duplicates, link-only proofs
 	gens["C06"] = worldGen("C06", 2000, 40000, genOpts{maxDepth: 6, sessions: true, sessionPct: 25, caveats: true, caveatPct: 20,
-		kinds: []string{"none", "permute", "decoys", "dup", "missing", "nbf-ok", "deadend", "deadend", "permute", "expired", "wrongkey", "parsefail"}})
+		kinds: []string{"none", "permute", "decoys", "dup", "missing", "nbf-ok", "deadend", "deadend", "permute", "expired", "wrongkey", "parsefail", "twincap", "deadend"}})
 }
 
 func without(l []string, x string) []string {
